@@ -7,9 +7,10 @@ Peano-Baker series of Spec/PeanoBaker.v.  The list model of the table assembly
 provenance (which samples each row depends on) for random n and irregular dyadic stamps.
 
 Numerical support / falsifier on the implementation (independent oracle: the exact attitude
-matrix C(T) and u(T) = int C f by composed Taylor-series steps (order 20, <= 20 ms each) of the ODEs in
-binary64, self-checked by the semigroup property / a higher order and against scipy DOP853): error-vs-interval slopes for closed-form linear
-and sinusoidal 3-axis signals, rate and increment types.
+matrix C(T) and u(T) = int C f by composed Taylor-series steps (order 20, <= 20 ms each) of the
+ODEs in binary64, self-checked each run by the semigroup property, a higher order and scipy
+DOP853): error-vs-interval slopes for closed-form linear and sinusoidal 3-axis signals, rate and
+increment types, uniform and irregular stamps.
 
 Orders tested (what the property text states; "documented algorithm order" is read from the
 docstring "The algorithm assumes a linear model for the angular velocity and the specific
@@ -28,8 +29,9 @@ import numpy as np
 RULE = ("translator: both traced functions validated on 60 random inputs per run; rows: random tables with "
         "n = 0..60 samples, irregular dyadic stamps (steps 1..10 /64 s), random data, both sensor types - a case "
         "is distinct by (type, stamps); slopes: random linear / sinusoidal 3-axis signals (|w| <= 3 rad/s, "
-        "|f| <= 30 m/s^2, 0.2..2 Hz), uniform stamps T = 160..1 ms and irregular stamp patterns scaled by "
-        "1, 1/2, 1/4 - a case is distinct by (signal kind, type, trial)")
+        "|f| <= 30 m/s^2, 0.2..2 Hz), uniform stamps T = 160..1 ms (long tables over a 0.64 s window) and irregular "
+        "stamps (3-sample tables with unequal adjacent intervals q T != c T <= 160 ms at fixed start times, T = 160..5 ms) "
+        "- a case is distinct by (signal kind, type, stamps kind, trial)")
 
 F2_KEY = 'increment-unequal-intervals-cubic'
 COLS_TH = ['theta_x', 'theta_y', 'theta_z']
